@@ -1,5 +1,6 @@
 import Isotp
 import Isotp.Sock
+import Isotp.Threaded
 /-
   Line-protocol driver: reads one operation per line on stdin, executes it on the model,
   prints exactly one output line per input line. See harness/proto.md.
@@ -129,6 +130,7 @@ structure Drv where
   emitted : Array Nat := #[]                      -- frames emitted so far per layer
   faults  : Array (Option (Bool × Nat)) := #[]   -- armed link fault per layer: (dup?, index)
   sock    : Sock.Sock := {}
+  tl      : Option TL := none
 
 /-- run an operation on layer i: sync clock, run, collect new events, route tx frames to the outbox -/
 def onLayer (d : Drv) (i : Nat) (f : State → State × String) : Drv × String :=
@@ -370,6 +372,30 @@ def step (d : Drv) (line : String) : Drv × String :=
       | some h => (d, b01 (h.isForMe { id := id, ext := parseBool ext, data := data }))
       | none => (d, "bad-addr")
     | _, _, _ => (d, "bad-op")
+  | "tl" :: "new" :: rest =>
+    let kv := parseKV rest
+    (match mkAddr kv with
+    | .error e => (d, s!"exc {e.name}")
+    | .ok a => ({ d with tl := some (TL.init (parseCfg kv) a) }, "ok|started=0 clean=1"))
+  | ["tl", op] =>
+    (match d.tl with
+    | none => (d, "bad-tl")
+    | some t =>
+      let fin := fun (t' : TL) (e : Option PyExc) (showClean : Bool) =>
+        let res := match e with | some x => s!"exc {x.name}" | none => "ok"
+        ({ d with tl := some t' }, s!"{res}|started={b01 t'.started} clean={if showClean then b01 t'.clean else "?"}")
+      match op with
+      | "start" => let (t', e) := t.start; fin t' e false
+      | "stop" => let (t', e) := t.stop; fin t' e true
+      | "send_sf" => let (t', e) := t.send { id := 0, size := 3, src := [1, 2, 3] }; fin t' e false
+      | "send_mf" => let (t', e) := t.send { id := 0, size := 20, src := List.replicate 20 7 }; fin t' e false
+      | "recv" => let (t', _) := t.recv; fin t' none false
+      | "stop_sending" => let (t', e) := t.stopSending; fin t' e false
+      | "stop_receiving" => let (t', e) := t.stopReceiving; fin t' e false
+      | "process" => let (t', e) := t.process true true; fin t' e false
+      | "reset" => let (t', e) := t.reset; fin t' e false
+      | "sleep" => fin t none false
+      | _ => (d, "bad-op"))
   | "sock" :: rest =>
     let (s1, out) := sockStep d.sock rest
     ({ d with sock := s1 }, out)
